@@ -524,7 +524,7 @@ func runC15(cfg *runCfg) error {
 	res := newResult("C15", cfg.seed)
 	r := newRng(cfg.seed + 1515)
 	dist := newDistinct()
-	res.Rule = "histories of 3-28 calls on one document: list items through the four entry points (8 list types incl. an unknown one, 6 bullet symbols, levels -5..100, start numbers incl. 0 and negatives), footnote/endnote add and remove (ids 0-6), headings of levels -1..10, paragraphs restyled with heading-like style ids, GenerateTOC (once) / UpdateTOC, checks (save + independent reading of numbering.xml, notes parts, TOC content control, accessors) in between and at the end; non-trivial = at least 4 content calls; distinct by hash of the op list"
+	res.Rule = "histories of 3-28 calls on one document: list items through the four entry points (8 list types incl. an unknown one, 6 bullet symbols, levels -5..100, start numbers incl. 0 and negatives), footnote/endnote add and remove (ids 0-6), headings of levels -1..10, paragraphs restyled with heading-like style ids, GenerateTOC (once) / UpdateTOC, checks (save + independent reading of numbering.xml, notes parts, TOC content control, accessors) in between and at the end; plus an oracle-only stream for the other way of making a table of contents (AutoGenerateTOC on documents whose headings repeat texts, called once or twice); non-trivial = at least 4 content calls; distinct by hash of the op list"
 	var coqCases []string
 	shrunk := 0
 	for ci := 0; ci < cfg.n; ci++ {
@@ -580,8 +580,75 @@ func runC15(cfg *runCfg) error {
 			res.Samples = append(res.Samples, ops)
 		}
 	}
+	autoTOCStream(res, r.fork(), cfg.n/6)
 	res.DistinctNontrivial = dist.n()
 	res.Shards = writeShards(cfg.out, "c15cases", "From Coq Require Import ZArith NArith List String.\nFrom WZ Require Import Model.Lists Corr.ListsCorr.", "case", "mismatches", coqCases, 80)
 	res.write(cfg.out)
 	return nil
+}
+
+// autoTOCStream: AutoGenerateTOC (the field-based table of contents), for the oracle alone. Documents of headings
+// (levels 1-9, texts that repeat) and paragraphs; the table must list exactly the headings up to the level asked for,
+// in order, with their texts - also when two headings have the same text - and a second call must change nothing.
+func autoTOCStream(res *Result, r *rng, n int) {
+	perClause := map[string]int{}
+	fail := func(i int, clause, detail string) {
+		perClause[clause]++
+		if perClause[clause] <= 3 {
+			res.OracleFailures = append(res.OracleFailures, OracleFailure{Clause: clause, Class: "autotoc:" + clause, Detail: detail, CaseID: -200000 - i})
+		}
+	}
+	for i := 0; i < n; i++ {
+		cr := r.fork()
+		d := document.New()
+		var heads [][2]int
+		var desc []string
+		for k, m := 0, cr.rangeI(1, 9); k < m; k++ {
+			if cr.chance(30) {
+				d.AddParagraph(textOf(cr.rangeI(2, 900)))
+				continue
+			}
+			lvl := cr.rangeI(1, 9)
+			t := cr.rangeI(2, 40)
+			if len(heads) > 0 && cr.chance(35) {
+				t = heads[cr.intn(len(heads))][0] // the same text as an earlier heading
+				res.Histogram["auto TOC: heading with a repeated text"]++
+			}
+			d.AddHeadingParagraph(textOf(t), lvl)
+			heads = append(heads, [2]int{t, lvl})
+			desc = append(desc, fmt.Sprintf("h%d %s", lvl, textOf(t)))
+		}
+		maxl := []int{1, 2, 3, 3, 5, 9}[cr.intn(6)]
+		var want [][2]int
+		for _, h := range heads {
+			if h[1] <= maxl {
+				want = append(want, h)
+			}
+		}
+		res.Histogram["auto TOC: documents"]++
+		err := d.AutoGenerateTOC(&document.TOCConfig{Title: "Contents", MaxLevel: maxl, ShowPageNum: true})
+		if len(want) == 0 {
+			continue // nothing to list: the call may refuse
+		}
+		if err != nil {
+			fail(i, "toc_generated", fmt.Sprintf("headings %v, AutoGenerateTOC(level %d): %v", desc, maxl, err))
+			continue
+		}
+		k, oerr := observeNum(d)
+		if oerr != nil {
+			fail(i, "toc_saved", fmt.Sprintf("headings %v: %v", desc, oerr))
+			continue
+		}
+		if fmt.Sprint(k.TOC) != fmt.Sprint(want) {
+			fail(i, "toc_entries", fmt.Sprintf("headings %v, AutoGenerateTOC(level %d): the table lists %v, the headings up to that level are %v", desc, maxl, k.TOC, want))
+			continue
+		}
+		if cr.chance(50) {
+			if err := d.AutoGenerateTOC(&document.TOCConfig{Title: "Contents", MaxLevel: maxl, ShowPageNum: true}); err == nil {
+				if k2, e2 := observeNum(d); e2 == nil && fmt.Sprint(k2.TOC) != fmt.Sprint(want) {
+					fail(i, "toc_idempotent", fmt.Sprintf("headings %v, AutoGenerateTOC(level %d) a second time: the table lists %v, was %v", desc, maxl, k2.TOC, want))
+				}
+			}
+		}
+	}
 }
